@@ -1,0 +1,15 @@
+//go:build verif
+
+package panics
+
+// Contracts for govc (see /verif/DESIGN.md). Comment-only file.
+
+// C07/C11: an earlier error wins; a panic value that is an error becomes the
+// result; anything else is re-raised unchanged
+//@ func Handle(r, originErr)
+//@   props C07 C11
+//@   maypanic
+//@   ensures originErr != nil ==> normal && result == originErr
+//@   ensures originErr == nil && r == nil ==> normal && result == nil
+//@   ensures originErr == nil && normal ==> result == r
+//@   ensures panics ==> pv == r && originErr == nil && r != nil
